@@ -6,6 +6,36 @@ PURE_OBS = None  # compare every line
 NOT_APPLICABLE = {}
 
 PROPS = {
+    'C18': {
+        'families': [('pure:hparse', 1, 1), ('pure:hformat', 2000, 100000), ('pure:fformat', 300, 6000)],
+        'exhaustive': True,
+        'rule': 'all 65536 values of the first two header bytes with boundary extended lengths, masks and every truncation point '
+                'through FrameHeader::parse; all flag/opcode/mask/boundary-length combinations through FrameHeader::format; frame '
+                'pairs through Frame::format and (behind each other in the shared buffer) Frame::format_into_buf',
+        'assumptions': ['payload lengths are u64 (hypothesis len < 2^64)'],
+        'trusted_base': ['Generated/LengthFormat.lean and Coding.lean come from the translator; Header.lean is the hand model of '
+                         'FrameHeader::{format,parse_internal}, compared exhaustively over the first two bytes'],
+        'level_text': 'Kernel-checked: parse(format h len ++ rest) = (h, len, header size) for every header with a defined opcode and every '
+                      '64-bit length; shortest length form; parse total (never panics), prefix-closed and stable under appended input; '
+                      're-encoding gives the canonical form; both frame encoders emit identical bytes of length Frame::len.',
+        'level_note': 'The header model is hand-written (bit operations on UInt8, constants and tables from the translator); tie = exhaustive '
+                      'differential run over all first-two-byte values plus an independent RFC header reader as monitor.',
+    },
+    'C19': {
+        'families': [('pure:mask', 4, 40), ('pure:fformat', 200, 4000), ('ep:maskpaths', 1, 1)],
+        'rule': 'payload lengths 0..=67 x 8 alignments x keys sweeping every value of every key byte through the real '
+                'apply_mask (hook) inside canary-filled buffers; frame pairs encoded behind each other in the shared write '
+                'buffer; server reads of masked frames / client writes at every (length, offset)',
+        'assumptions': ['that the unsafe align_to_mut reinterpretation touches no neighbouring byte is memory behaviour: '
+                        'checked with canaries on the real crate, not proved (partial)'],
+        'trusted_base': ['the model of apply_mask_fast32 takes the (prefix, words, suffix) split as a parameter; '
+                         'C19_fast_eq_spec holds for every split'],
+        'level_text': 'Kernel-checked theorem that the word-wise fast path equals byte-wise XOR with key[i mod 4] for EVERY buffer, '
+                      'key and every (prefix, words, suffix) split, plus involution and the in-place encoder leaving the buffer prefix '
+                      'untouched; the real routine is compared with the specification at every length 0..67 x alignment with canaries.',
+        'level_note': 'Partial for the memory-safety part (adjacent bytes): canary test on the real crate, not a theorem. '
+                      'Little-endian target assumed (from_ne_bytes / rotate_right).',
+    },
     'C20': {
         'families': [('pure:closecode', 1, 1), ('pure:opcode', 1, 1)],
         'exhaustive': True,
